@@ -460,7 +460,7 @@ func inOrbit(a, b rune) bool {
 }
 
 // EdgeRunes are the rune arguments every rune-taking function is tried with.
-var EdgeRunes = []rune{-1 << 31, -1, 0, 0x7F, 0x80, 0xD7FF, 0xD800, 0xDFFF, 0xE000, 0xFFFD, 0xFFFE, 0x10FFFF, 0x110000, 1<<31 - 1,
+var EdgeRunes = []rune{-1 << 31, -1, 0, 0x7F, 0x80, 0xD7FF, 0xD800, 0xDFFF, 0xE000, 0xFFFD, 0xFFFE, 0xFFFF, 0x10000, 0x7FF, 0x800, 0x10FFFF, 0x110000, 1<<31 - 1,
 	'k', 'K', 0x212A, 's', 'S', 0x17F, 0x130, 0x131, 'i', 'I'}
 
 // Ops2 emits the two-byte-string functions fns for pair p on both packages.
